@@ -56,6 +56,15 @@ func (s *ProcPluginService) NewProcessor(ctx context.Context, pluginName string,
 	}
 	d := s.w.park(ctx, "proc.new", id, s.inc, nil, "plugin.err")
 	if d.fault != "" {
+		if cl := clientOf(ctx); cl != "" && s.w.or != nil && s.w.or.ap != nil {
+			if call := s.w.or.ap.inFlight[cl]; call != nil {
+				for _, t := range call.targets {
+					if t == id {
+						call.procFault = "it cannot be built: " + d.fault
+					}
+				}
+			}
+		}
 		return nil, faultErr(ctx, d, "new-processor", id)
 	}
 	sys.gens++
